@@ -2019,6 +2019,98 @@ def check_rewriting(rep: Report, ix) -> None:
     rep.floor("sympy symbol constructions", n_sym, 3)
 
 
+def check_evaluate_coordinates(rep: Report, ix) -> None:
+    """tools.expressions.evaluate compiles the expression with the signature (*fields, "none", "bc_args", *coordinate names)
+    and calls it with (*field data, None, bc_args, *coordinate arrays): the k-th coordinate *name* of the signature must
+    be bound to the coordinate array of *that* axis (`grid.cell_coords[..., grid.axes.index(name)]`), and every axis the
+    expression depends on must be in the signature.  The statements that compute the signature and the extra arguments
+    (backward slice from the call) are interpreted (pdelint/npsem.py) for grids with 2 and 3 axes and every subset of
+    axes the expression may depend on."""
+    import itertools
+
+    import numpy as np
+
+    from .. import npsem as ns
+
+    fi = ix.func(EXPR, "evaluate")
+    rep.saw("functions", fi.ref)
+    body = strip_doc(fi.node.body)
+    # the call  f(*A, None, <bc_args>, *B)  and  expr.vars = S
+    call = None
+    for x in ast.walk(fi.node):
+        if isinstance(x, ast.Call) and len(x.args) == 4 and isinstance(x.args[0], ast.Starred) and isinstance(x.args[3], ast.Starred) and isinstance(x.args[1], ast.Constant) and x.args[1].value is None:
+            call = x
+    sig_name = None
+    for x in ast.walk(fi.node):
+        if isinstance(x, ast.Assign) and len(x.targets) == 1 and isinstance(x.targets[0], ast.Attribute) and x.targets[0].attr == "vars" and isinstance(x.value, ast.Name):
+            sig_name = x.value.id
+    if call is None or sig_name is None or not isinstance(call.args[3].value, ast.Name):
+        raise AnalysisError(f"{fi.ref}: the call `f(*fields, None, bc_args, *coordinates)` / `expr.vars = signature` was not found")
+    extra_name = call.args[3].value.id
+    params = [a.arg for a in fi.node.args.args + fi.node.args.kwonlyargs]
+    roots = {"grid", "expr", "backend", "fields_keys", "np"} | set(params)
+    # backward slice over the top-level statements
+    needed = {sig_name, extra_name}
+    chosen = []
+    for st in reversed(body):
+        stores = {t.id for q in ast.walk(st) for t in ([q] if isinstance(q, ast.Name) and isinstance(q.ctx, ast.Store) else [])}
+        if isinstance(st, (ast.Assign, ast.AugAssign, ast.AnnAssign, ast.If, ast.For)) and stores & needed and not any(isinstance(q, ast.Attribute) and isinstance(q.ctx, ast.Store) for q in ast.walk(st)):
+            chosen.append(st)
+            needed |= {q.id for q in ast.walk(st) if isinstance(q, ast.Name) and isinstance(q.ctx, ast.Load)} - roots
+    chosen.reverse()
+    if not chosen:
+        raise AnalysisError(f"{fi.ref}: no statement defines `{sig_name}` / `{extra_name}`")
+    n_scen = 0
+    bad: dict[str, str] = {}
+    for axes in (("x", "y"), ("r", "z"), ("x", "y", "z")):
+        n = len(axes)
+        coords = np.empty((2,) * n + (n,), dtype=object)
+        for cell in np.ndindex(*coords.shape[:-1]):
+            for k in range(n):
+                coords[cell + (k,)] = sp.Symbol(f"{axes[k]}_{'_'.join(map(str, cell))}")
+        for r_ in range(n + 1):
+            for used in itertools.combinations(axes, r_):
+                n_scen += 1
+                scen = f"axes={axes} expression depends on {used or 'no coordinate'}"
+                grid = ns.Stub("grid", axes=list(axes), num_axes=n, dim=n, cell_coords=coords, shape=(2,) * n)
+                expr = ns.Stub("expr", depends_on=lambda c, used=used: c in used, vars=("c", *used))
+                backend = ns.Stub("backend", numpy_to_native=lambda a: a, implementation="numpy")
+                sem = ns.NpSem(where=fi.ref)
+                scope = ns.Scope({"grid": grid, "expr": expr, "backend": backend, "fields_keys": ["c"], "np": ns.NP})
+                try:
+                    sem.exec_block(chosen, scope)
+                    sig = tuple(scope.get(sig_name))
+                    extra = tuple(scope.get(extra_name))
+                except ns.Raised as e:
+                    bad.setdefault("raises", f"{scen}: ends in `{e}`")
+                    continue
+                except KeyError as e:
+                    raise AnalysisError(f"{fi.ref}: {e} is not defined by the interpreted slice") from e
+                if sig[:3] != ("c", "none", "bc_args"):
+                    bad.setdefault("prefix", f"{scen}: signature starts with {sig[:3]}, the call passes (*fields, None, bc_args)")
+                    continue
+                names = sig[3:]
+                if len(names) != len(extra):
+                    bad.setdefault("count", f"{scen}: {len(names)} coordinate names {names} but {len(extra)} coordinate arrays")
+                    continue
+                miss = [a for a in used if a not in names]
+                if miss:
+                    bad.setdefault("missing", f"{scen}: the signature {names} lacks {miss}")
+                for k, nm in enumerate(names):
+                    if nm not in axes:
+                        bad.setdefault("unknown", f"{scen}: `{nm}` in the signature is no axis of the grid")
+                        continue
+                    want = coords[..., axes.index(nm)]
+                    got = extra[k]
+                    if not isinstance(got, np.ndarray) or got.shape != want.shape or ns.arrays_equal(got, want):
+                        which = [a for j, a in enumerate(axes) if isinstance(got, np.ndarray) and got.shape == want.shape and not ns.arrays_equal(got, coords[..., j])]
+                        bad.setdefault("binding", f"{scen}: the name `{nm}` is bound to the coordinates of axis {which or '?'} (argument {k} of the extra arguments)")
+    rep.floor("evaluate(): coordinate-binding scenarios", n_scen, 16)
+    rep.oblige(f"{fi.ref}: coordinate names of the signature are bound to the coordinate arrays of their own axes", not bad, bad)
+    for role, msg in bad.items():
+        rep.violation("C11.evaluate-coordinates", f"{fi.ref}::{role}", f"evaluate(): {msg}; the compiled expression is evaluated with the wrong coordinate values", line=call.lineno)
+
+
 def check(tier: str) -> Report:
     rep = Report("C11", tier, "other", "sibling tables from an abstract interpretation of make_expression_function + def-use rules (narrow structural clauses)")
     rep.explanation = (
@@ -2052,6 +2144,7 @@ def check(tier: str) -> Report:
     check_special_functions(rep, ix)
     check_derivatives(rep, ix)
     check_from_expression(rep, ix)
+    check_evaluate_coordinates(rep, ix)
     check_signature_aliases(rep, ix)
     check_passthrough(rep, ix)
     check_rewriting(rep, ix)
